@@ -161,7 +161,7 @@ func main() {
 			if !named {
 				rs = nil
 			}
-			fmt.Printf("%s\t%s\t%d\t%s\t%s\n", c.File, k, c.Line, strings.Join(ps, " "), strings.Join(rs, " "))
+			fmt.Printf("%s\t%s\t%d\t%s\t%s\t%s\n", c.File, k, c.Line, strings.Join(ps, " "), strings.Join(rs, " "), strings.Join(ld.localsOf(fn), " "))
 		}
 	case "methods":
 		// prints the methods clauses for every type of the repository with exported methods
